@@ -906,10 +906,15 @@ pub fn run(c: &Case) -> Obs {
             let p = prepare(c.u(2), c.u(3) as usize, c.u(4), 0)?;
             check_convert(&p, &c.args[0], &c.args[1])
         }
+        // acx src dst text refs: a conversion of an explicitly given data set (regression cases)
+        "acx" => {
+            let p = prepare_spec(spec_of_text(&c.b(2), &c.args[3]))?;
+            check_convert(&p, &c.args[0], &c.args[1])
+        }
         _ => bad("harness-unknown-kind", c.kind.clone()),
     })();
     let nontrivial = match c.kind.as_str() {
-        "art" | "atx" | "aas" => true,
+        "art" | "atx" | "aas" | "acx" => true,
         _ => c.u(3) > 0,
     };
     Obs::ok("-", nontrivial).with_verdict(r)
